@@ -61,7 +61,9 @@ func c07Rules() *RuleSet {
 				return ok && isConstInt(ia.Index, 0) && decodedX(m, ia.X)
 			}},
 			errNil("blob-read", "RVBlob for the GUID taken from the decoded UEID returned no error", named("fdo.RendezvousBlobPersistentState.RVBlob"),
-				func(m *Matcher, _ ssa.CallInstruction, args []ssa.Value) bool { return len(args) == 3 && decodedX(m, args[2]) }),
+				func(m *Matcher, _ ssa.CallInstruction, args []ssa.Value) bool {
+					return len(args) == 3 && decodedX(m, args[2])
+				}),
 			errNil("devkey-ok", "DevicePublicKey of the registered voucher returned no error", named("fdo.Voucher.DevicePublicKey"),
 				func(m *Matcher, _ ssa.CallInstruction, args []ssa.Value) bool { return m.Prov(args[0]).HasX(rvblob) }),
 			boolTrue("eat-sig-true", "Sign1.Verify of the decoded token under the registered voucher's device key returned true", named("fdo/cose.Sign1.Verify"), 0, verifyArgs),
@@ -273,7 +275,7 @@ func c07RegistrationExpiry(p *Prog, r *Result) {
 					pos = true
 				}
 			}
-			r.table(p, rule, key, p.instrPos(call), !(ad && pos) , "single expiry value; AddDate on a path where the duration is known positive")
+			r.table(p, rule, key, p.instrPos(call), !(ad && pos), "single expiry value; AddDate on a path where the duration is known positive")
 			continue
 		}
 		okAll, detail := true, ""
